@@ -74,8 +74,7 @@ class ZipfRules:
                 self.sink.emit('C19.CONST', 'ok' if okv else 'violated', '%s::%s has value semantics' % (sn, f['name']), '%s:%s' % (r['file'], f['line']), 'type %s' % ct)
             for m in r['methods']:
                 if m['kind'] in ('copy_ctor', 'move_ctor', 'copy_assign', 'move_assign'):
-                    self.sink.emit('C19.CONST', 'ok' if (m['defaulted'] and not m['deleted']) else 'violated', '%s %s is defaulted' % (sn, m['kind']), '%s:%s' % (r['file'], m['line']),
-                                   'a copy / moved-to object holds the same parameters and table')
+                    self.memberwise(sn, r, m)
             st = [x for x in r['statics'] if not x['constexpr']]
             self.sink.emit('C19.NOMUT', 'ok' if not st else 'violated', '%s has no non-constant static member' % sn, '%s:%s' % (r['file'], r['line']), '%s' % [x['name'] for x in st])
             t = r['name']
@@ -112,6 +111,31 @@ class ZipfRules:
                                           'a %s local in the sampling path carries state between calls and between generators' % e['storage'])
                         elif e['kind'] == 'assign_local' and e['path'][2] in statics:
                             self.sink.bad('C19.NOMUT', '%s::%s writes the static-storage local %s' % (sn, f['short'], e['path'][2]), self.loc(f, e['line']), '')
+            # ... and in the construction path (constructors and their helpers): a buffer that survives the call is harmless
+            # only when it is emptied before its first use; emptied at the end, it keeps the values of a construction that
+            # left by an exception (allocation failure), and the next generator built on that thread is made from them
+            skip = set(f['key'] for f in reach)
+            for f in self.fx.functions.values():
+                if f.get('record') != rec or f['key'] in skip or f.get('defaulted'):
+                    continue
+                for p in self.paths(f):
+                    for e in p.events:
+                        if e['kind'] != 'decl' or e['storage'] == 'auto':
+                            continue
+                        ct = e['type'].get('ct', '')
+                        if ct.startswith('const ') or e.get('constexpr'):
+                            continue
+                        uses = [x for x in p.events if x['seq'] > e['seq'] and
+                                ((x['kind'] == 'call' and isinstance(x.get('obj'), tuple) and x['obj'][:1] == ('var',) and x['obj'][-1] == e['name']) or
+                                 (x['kind'] == 'assign_local' and x['path'][2] == e['name']) or
+                                 (x['kind'] == 'read' and x['path'][0] == 'var' and x['path'][-1] == e['name']))]
+                        first = next((x for x in uses if x['kind'] != 'read' or True), None)
+                        reset = first is not None and ((first['kind'] == 'call' and first.get('name') in ('clear', 'operator=', 'assign')) or first['kind'] == 'assign_local')
+                        self.sink.emit('C19.TLS', 'ok' if reset else 'violated', '%s::%s %s local %s is emptied before its first use' % (sn, f['short'], e['storage'], e['name']),
+                                       self.loc(f, e['line']),
+                                       'reset at line %s' % first.get('line') if reset else
+                                       'a %s local of type %s is used (line %s) with whatever an earlier construction on this thread left in it, also one that ended by an exception: '
+                                       'equal parameters no longer give equal tables' % (e['storage'], ct, first.get('line') if first else '?'))
             # PURE.TLS / PURE.DEPS on operator()
             eng_param = S('&' + op['params'][0]['name']) if op['params'] else None
             seen_tls = 0
@@ -149,6 +173,12 @@ class ZipfRules:
                         elif rec_c.startswith(('std::vector<double', 'std::array<double')) and nm in ('at', 'size', 'operator[]', 'back', 'front', 'empty'):
                             okc = e.get('const_method') and self.rooted(e['obj'], S('this'))
                             why = 'read of the table'
+                        elif rec_c.startswith(('std::vector<double', 'std::array<double')) and nm in ('cbegin', 'cend', 'begin', 'end', 'data') and e.get('const_method'):
+                            okc = self.rooted(e['obj'], S('this'))
+                            why = 'iterator into the table'
+                        elif nm.startswith('operator') and (rec_c.startswith('__gnu_cxx::__normal_iterator<const double') or
+                                                            '__normal_iterator<const double' in (e.get('callee') or '')):
+                            okc, why = True, 'arithmetic / dereference of a const iterator into the table'
                         elif nm in MATH or nm.startswith('IntegralToFloating'):
                             okc, why = True, '<cmath>'
                         else:
@@ -195,6 +225,59 @@ class ZipfRules:
         w = run_witness(self.fx.flags, incs, asserts, compilers=('clang++', 'g++'))
         for tag, expr, _ in asserts:
             self.sink.emit('C19.CONST', 'ok' if w[tag] else 'violated', tag, 'witness TU', 'static_assert(%s)' % expr[:160])
+
+    def memberwise(self, sn, r, m):
+        """A copy / moved-to generator holds the parameters and the table of its source: the operation is defaulted, or its body
+        gives every data member the value the same member of the source had on entry."""
+        what = '%s %s gives every member the value of the same member of its source' % (sn, m['kind'])
+        where = '%s:%s' % (r['file'], m['line'])
+        if m['deleted']:
+            self.sink.bad('C19.CONST', what, where, 'deleted: generators cannot be copied / moved any more')
+            return
+        if m['defaulted']:
+            self.sink.ok('C19.CONST', what, where, 'defaulted over value-semantic members')
+            return
+        f = self.fx.functions.get(m['key'])
+        if f is None or not f.get('params'):
+            self.sink.unsup('C19.CONST', what, where, 'user-provided, body not found in the analysed units')
+            return
+        src = S('&' + f['params'][0]['name'])
+        n = 0
+        for p in self.paths(f):
+            if p.end == 'throw':
+                continue
+            n += 1
+            # a self-assignment test (this == &obj) leaves everything in place: same values
+            if any(isinstance(c, tuple) and c[0] == 'op' and ((c[1] == '==' and o) or (c[1] == '!=' and not o)) and {show(c[2]), show(c[3])} == {'this', show(src)} for c, o, _ in p.conds):
+                continue
+            for fld in r['fields']:
+                name = fld['name']
+                want = show(('field', src, name))
+                gv = None
+                for e in p.events:
+                    if e['kind'] == 'assign' and e['path'] == ('field', S('this'), name):
+                        gv = e['value']
+                    elif e['kind'] == 'init' and e.get('member') == name:
+                        gv = e['value']
+                    elif e['kind'] == 'call' and e.get('obj') == ('field', S('this'), name) and e.get('name') in ('operator=', 'assign', 'swap'):
+                        a = e.get('args') or ()
+                        gv = a[0] if a and e.get('name') != 'assign' else None
+                # a copy / a braced wrapper / an lvalue of the source member all stand for its value
+                for _ in range(4):
+                    if isinstance(gv, tuple) and gv and gv[0] == 'initlist' and len(gv[1]) == 1:
+                        gv = gv[1][0]
+                    elif isinstance(gv, tuple) and gv and gv[0] == 'obj' and len(gv[3]) == 1:
+                        gv = gv[3][0]
+                    elif isinstance(gv, tuple) and gv and gv[0] == 'lv':
+                        gv = S(show(gv[1]))
+                    else:
+                        break
+                got = show(gv) if isinstance(gv, tuple) else (None if gv is None else str(gv))
+                good = got is not None and got == want
+                self.sink.emit('C19.CONST', 'ok' if good else 'violated', what, self.loc(f, p.ret_line),
+                               '%s <- %s' % (name, got) if good else 'member %s of the target ends as %s, not as the source\'s %s: the copy / moved-to generator draws different values' % (name, got, name))
+        if not n:
+            self.sink.unsup('C19.CONST', what, where, 'no returning path')
 
     def rooted(self, path, base):
         while isinstance(path, tuple) and path:
@@ -347,8 +430,27 @@ class ZipfRules:
                     if e['kind'] == 'decl' and e.get('has_init') and e['storage'] == 'auto':
                         decls[e['name']] = e
             # (declared order: uniform variate, begin, end) -- check the initial search interval
-            ends = self.search_bounds(op, rec, approx, tobj)
-            self.sink.emit('C06.RANGE', 'ok' if ends else 'violated', '%s::operator() searches positions [0, bins - 1]' % sn, self.loc(op), '')
+            narrow = None
+            if self.cursors(op) is None:
+                ps_ = self.paths(op)
+                assigned_ = {e['path'][2] for p in ps_ for e in p.events if e['kind'] == 'assign_local' and e['path'][0] == 'var'}
+                ints_ = {e['name']: e for p in ps_ for e in p.events if e['kind'] == 'decl' and e['storage'] == 'auto' and e['name'] in assigned_ and
+                         e['type'].get('bits') and e['type'].get('bits') < 64 and 'value' in e}
+                if len(ints_) >= 2:
+                    narrow = sorted(ints_)
+            if narrow:
+                # integer cursors narrower than 64 bits: begin + end wraps for tables of more than half the type's range
+                d0 = ints_[narrow[0]]
+                self.sink.bad('C06.RANGE', '%s::operator() searches positions [0, bins - 1]' % sn, self.loc(op, d0.get('line')),
+                              'the search cursors %s are %d-bit %s integers: begin + end is not computed in a type that holds every sum of two positions' %
+                              (narrow, d0['type'].get('bits'), 'signed' if d0['type'].get('signed') else 'unsigned'))
+            elif self.cursors(op) is None:
+                # no pair of integer cursors (an iterator-based or library search): the interval rules do not apply to this shape
+                self.sink.unsup('C06.RANGE', '%s::operator() searches positions [0, bins - 1]' % sn, self.loc(op),
+                                'the search does not use two signed 64-bit position cursors: its interval is not decided')
+            else:
+                ends = self.search_bounds(op, rec, approx, tobj)
+                self.sink.emit('C06.RANGE', 'ok' if ends else 'violated', '%s::operator() searches positions [0, bins - 1]' % sn, self.loc(op), '')
             self.search_rules(rec, sn, op, tobj, approx)
             if approx:
                 self.approx_rules(rec, r, sn, tab, tobj, upd)
@@ -665,6 +767,8 @@ class ZipfRules:
         for f in self.fx.functions.values():
             if f.get('record') != rec or f['kind'] == 'ctor':
                 continue
+            if f.get('copy_assign') or f.get('move_assign'):
+                continue      # a user-provided assignment replaces all members together: judged by the memberwise rule (C19.CONST)
             for p in self.paths(f):
                 for e in p.events:
                     if e['kind'] == 'assign' and e['path'][0] == 'field' and e['path'][1] == S('this') and e['path'][2] in ('denom_', 'n_', 'pow_', 'min_', 'max_'):
